@@ -239,7 +239,7 @@ func (f *family) runCase(sc *scenario, variant string, muts []mutation, donor *r
 		}
 		return false
 	}
-	lenientCase := len(muts) > 0 && muts[0].Op == "lenient"
+	lenientCase := len(muts) > 0 && strings.HasPrefix(muts[0].Op, "lenient")
 	dialsBefore, _ := f.lab.T.Dials()
 	f.lab.T.SetHook(faultHook(muts, donor, custom, ap))
 	out := monitoredCall(deadline, ex.call)
@@ -277,7 +277,7 @@ func (f *family) runCase(sc *scenario, variant string, muts []mutation, donor *r
 			r.Count("lenient_host:client_success", 1)
 		}
 		if os.Getenv("VERIF_DEBUG") != "" {
-			fmt.Printf("DEBUG lenient %s/%s dialed=%v changed=%d err=%v panic=%v\n", sc.rpc, variant, dialsAfter != dialsBefore, changed, out.Err, out.Panic)
+			fmt.Printf("DEBUG %s %s/%s dialed=%v changed=%d err=%v panic=%v\n", muts[0].Op, sc.rpc, variant, dialsAfter != dialsBefore, changed, out.Err, out.Panic)
 		}
 	}
 	switch {
@@ -304,7 +304,7 @@ func (f *family) runCase(sc *scenario, variant string, muts []mutation, donor *r
 	}
 	switch {
 	case out.Panic != nil:
-		r.Violation("client-panic:"+sc.rpc, fmt.Sprintf("client call panicked instead of returning an error: %v", out.Panic), cse, fmt.Sprint(out.Panic))
+		r.Violation("client-panic:"+sc.rpc, fmt.Sprintf("client call panicked instead of returning an error: %v", out.Panic), cse, map[string]any{"panic": fmt.Sprint(out.Panic), "stack": out.Stack})
 	case out.Err != nil:
 		r.Count("client_returned_error", 1)
 		if out.Duration >= deadline*9/10 {
@@ -412,22 +412,33 @@ func (f *family) runLenient(sc *scenario) {
 	if f.part != 0 {
 		return
 	}
-	var muts []mutation
-	for i := 0; i < sc.nHost; i++ {
-		muts = append(muts, mutation{Dir: "H", Msg: i, Op: "lenient"})
-	}
 	for _, v := range sc.lenient {
 		if f.dead {
 			return
 		}
-		f.runCase(sc, v, muts, nil)
+		// "variant|mode": the host deviates from the verbatim execution in the
+		// given way when it builds its first answer (a proof for another index
+		// set / range than the requested one, a hash too few or too many, ...)
+		variant, mode, _ := strings.Cut(v, "|")
+		var muts []mutation
+		for i := 0; i < sc.nHost; i++ {
+			op := "lenient"
+			if i == 0 && mode != "" {
+				op = "lenient:" + mode
+			}
+			muts = append(muts, mutation{Dir: "H", Msg: i, Op: op})
+		}
+		if mode != "" {
+			f.r.Count("lenient_host:answers_built_for_another_request", 1)
+		}
+		f.runCase(sc, variant, muts, nil)
 	}
 }
 
 // ---- C10 entry ----
 
 func runC10(r *mon.Run, replay string) {
-	r.Rule("fault table = RPC x host->renter message x field (reflection walk of the typed message: every byte array, currency, integer, bool, string, time, slice (first and last element), pointer, resolution type) x operator {flip low/high bit, zero, max, +1, -1, truncate, extend, duplicate, swap neighbours, swap with the same field of another recorded exchange} plus message-level faults {RPCError injection, cut before/after, half-sent message, trailing garbage, whole message of another exchange, silent host, raw sector data flip/truncate/extend/zero} plus re-signing with the real host key after altering the signed object; plus coherent alternatives built by the man-in-the-middle with core's proof builders (valid proof for another range / leaf / root set, alone and with a forged final signature); plus a LENIENT hostile host holding the real host key: for caller parameters that are well-formed and ill-formed (free index lists with duplicates in every position pattern, out of order, out of range, empty; sector-roots ranges on an empty contract, at and beyond the end, zero length, overflowing; reads with unaligned offset / unaligned end / zero length / beyond the sector; writes of unaligned or zero length; empty / repeated / unknown append lists) it executes the request exactly as received where the honest server refuses it, builds the matching proof and countersigns - the oracle then compares the result with a reference model of the CALLER's parameters (set semantics for free, the renter-known roots for sector roots, the stored bytes for read), independent of the client's own arithmetic; the table is enumerated completely (exhaustive over the table), thorough adds PRNG double mutations; a case is non-trivial when the fault changed the bytes the renter received; oracle only when the client call returned success")
+	r.Rule("fault table = RPC x host->renter message x field (reflection walk of the typed message: every byte array, currency, integer, bool, string, time, slice (first and last element), pointer, resolution type) x operator {flip low/high bit, zero, max, +1, -1, truncate, extend, duplicate, swap neighbours, swap with the same field of another recorded exchange} plus message-level faults {RPCError injection, cut before/after, half-sent message, trailing garbage, whole message of another exchange, silent host, raw sector data flip/truncate/extend/zero} plus re-signing with the real host key after altering the signed object; plus coherent alternatives built by the man-in-the-middle with core's proof builders (valid proof for another range / leaf / root set, alone and with a forged final signature); plus a LENIENT hostile host holding the real host key: for caller parameters that are well-formed and ill-formed (free index lists with duplicates in every position pattern, out of order, out of range, empty; sector-roots ranges on an empty contract, at and beyond the end, zero length, overflowing; reads with unaligned offset / unaligned end / zero length / beyond the sector; writes of unaligned or zero length; empty / repeated / unknown append lists) it executes the request exactly as received where the honest server refuses it, builds the matching proof and countersigns, and - per request - also answers with a proof built for ANOTHER index set / range than the requested one (an in-range substitute for an out-of-range index or range, one appended root more or fewer) or with one subtree hash / leaf hash / root / accepted flag too few or too many; every client call is guarded, a panic is the violation client-panic:<rpc> - the oracle then compares the result with a reference model of the CALLER's parameters (set semantics for free, the renter-known roots for sector roots, the stored bytes for read), independent of the client's own arithmetic; the table is enumerated completely (exhaustive over the table), thorough adds PRNG double mutations; a case is non-trivial when the fault changed the bytes the renter received; oracle only when the client call returned success")
 	r.Assume("core (rhp/v4 merkle, sighash, Revise* functions) is the trusted base for computing expected roots and successor revisions")
 	r.Assume("the in-repo server, EphemeralContractor and EphemeralSectorStore are the honest peer behind the man-in-the-middle; transports' own framing (siamux/quic) is not mutated")
 	r.Extra("exhaustive", true)
@@ -502,10 +513,11 @@ func runC10(r *mon.Run, replay string) {
 		r.Floor("client_returned_success", 20)
 		r.Floor("success_oracle_evaluations", 20)
 		r.Floor("returned_at_context_deadline_silent_host", 5)
-		r.Floor("lenient_host_cases:free", 12)
-		r.Floor("lenient_host_cases:roots", 10)
+		r.Floor("lenient_host_cases:free", 100)
+		r.Floor("lenient_host_cases:roots", 60)
+		r.Floor("lenient_host:answers_built_for_another_request", 150)
 		r.Floor("lenient_host_cases:read", 8)
-		r.Floor("lenient_host_cases:append", 3)
+		r.Floor("lenient_host_cases:append", 35)
 		r.Floor("lenient_host_cases:write", 4)
 		r.Floor("lenient_host:client_success", 10)
 		r.Floor("lenient_host:answered_where_honest_host_differs", 3)
@@ -946,6 +958,11 @@ func buildRootsFamily(f *family) error {
 	}
 	sc := &scenario{rpc: "roots", nHost: 1, variants: []string{"1:0,1", "1:1,3", "2:0,2", "1:0,5", "1:4,1", "2:2,1"},
 		lenient: []string{"1:1,2", "0:0,1", "0:0,3", "0:1,1", "0:0,0", "1:5,1", "1:3,5", "1:0,6", "1:0,0", "1:18446744073709551615,2", "1:4,18446744073709551615", "2:3,1"}}
+	for _, v := range []string{"1:1,2", "1:0,5", "0:0,1", "0:0,3", "1:5,1", "1:3,5", "1:0,6", "1:18446744073709551615,2"} {
+		for _, md := range []string{"sub-first", "sub-last", "proof-drop", "proof-extra", "proof-none", "roots-drop", "roots-extra", "roots-none"} {
+			sc.lenient = append(sc.lenient, v+"|"+md)
+		}
+	}
 	sc.prepare = func(variant string) (*exchange, error) {
 		c := c1
 		switch variant[0] {
@@ -987,9 +1004,10 @@ func buildRootsFamily(f *family) error {
 		return &exchange{
 			customOps: append(append(altOps(0, "alt-roots:", alts), altOps(0, "alt-roots-resign:", alts)...), resignOps...),
 			custom: chainCustom(resign, func(m *rhpmitm.Msg, mu mutation, seen *recorded) bool {
-				if mu.Op != "lenient" {
+				if !strings.HasPrefix(mu.Op, "lenient") {
 					return false
 				}
+				mode := strings.TrimPrefix(strings.TrimPrefix(mu.Op, "lenient"), ":")
 				// the lenient host: whatever range is asked for, it returns that many
 				// roots (the real ones where the contract has them, made-up ones
 				// beyond), the best proof it can build, and its genuine signature
@@ -1016,6 +1034,36 @@ func buildRootsFamily(f *family) error {
 						end = total
 					}
 					resp.Proof = rhp4.BuildSectorRootsProof(truth, req.Offset, end)
+				}
+				// modes: the answer is built for ANOTHER range inside the contract, or
+				// carries a hash / a root too few or too many
+				switch mode {
+				case "sub-first", "sub-last":
+					k := min(max(req.Length, 1), total)
+					o := uint64(0)
+					if mode == "sub-last" {
+						o = total - k
+					}
+					if total > 0 {
+						resp.Roots = append([]types.Hash256(nil), truth[o:o+k]...)
+						resp.Proof = rhp4.BuildSectorRootsProof(truth, o, o+k)
+					}
+				case "proof-drop":
+					if len(resp.Proof) > 0 {
+						resp.Proof = resp.Proof[:len(resp.Proof)-1]
+					}
+				case "proof-extra":
+					resp.Proof = append(resp.Proof, types.Hash256{0xee})
+				case "proof-none":
+					resp.Proof = nil
+				case "roots-drop":
+					if len(resp.Roots) > 0 {
+						resp.Roots = resp.Roots[:len(resp.Roots)-1]
+					}
+				case "roots-extra":
+					resp.Roots = append(resp.Roots, types.Hash256{0xee})
+				case "roots-none":
+					resp.Roots = nil
 				}
 				rev, _, err := rhp4.ReviseForSectorRoots(prev.Revision, req.Prices, rq.Obj.(*rhp4.RPCSectorRootsRequest).Length)
 				if err != nil {
@@ -1122,6 +1170,11 @@ func buildAppendFreeFamily(f *family) error {
 	}
 	app := &scenario{rpc: "append", nHost: 2, variants: []string{"1:one", "1:three-1-miss", "2:two"},
 		lenient: []string{"1:one", "1:empty", "1:same-twice", "1:only-missing"}}
+	for _, v := range []string{"1:one", "1:empty", "1:three-1-miss", "1:only-missing", "2:two"} {
+		for _, md := range []string{"other-set", "fewer", "accepted-extra", "accepted-short", "accepted-none", "subtree-drop", "subtree-extra", "subtree-none"} {
+			app.lenient = append(app.lenient, v+"|"+md)
+		}
+	}
 	app.prepare = func(variant string) (*exchange, error) {
 		c, b := c1, base
 		if variant[0] == '2' {
@@ -1175,12 +1228,37 @@ func buildAppendFreeFamily(f *family) error {
 		}
 		lenientAppend := func(m *rhpmitm.Msg, mu mutation, seen *recorded) bool {
 			rq := seen.get(rhpmitm.RenterToHost, 0)
-			if mu.Op != "lenient" || rq == nil {
+			if !strings.HasPrefix(mu.Op, "lenient") || rq == nil {
 				return false
 			}
-			// executes the request as received (also an empty one): every root it
-			// stores is appended
+			mode := strings.TrimPrefix(strings.TrimPrefix(mu.Op, "lenient"), ":")
 			r0 := rq.Obj.(*rhp4.RPCAppendSectorsRequest)
+			if m.Index == 1 {
+				// countersigns the revision the renter derives from the answer it got
+				h0 := seen.get(rhpmitm.HostToRenter, 0)
+				if h0 == nil || h0.Err != nil {
+					return false
+				}
+				resp := h0.Obj.(*rhp4.RPCAppendSectorsResponse)
+				n := 0
+				for i, a := range resp.Accepted {
+					if a && i < len(r0.Sectors) {
+						n++
+					}
+				}
+				var rev types.V2FileContract
+				var err error
+				if p := mon.Guard(func() {
+					rev, _, err = rhp4.ReviseForAppendSectors(prev.Revision, r0.Prices, resp.NewMerkleRoot, uint64(n))
+				}); p != nil || err != nil {
+					return false
+				}
+				m.Err, m.Obj = nil, &rhp4.RPCAppendSectorsThirdResponse{HostSignature: l.HostKey.SignHash(l.HostNode.CM.TipState().ContractSigHash(rev))}
+				return true
+			}
+			// executes the request as received (also an empty one): every root it
+			// stores is appended; the modes build the answer for another set or
+			// with a count that is off by one
 			var app []types.Hash256
 			acc := make([]bool, len(r0.Sectors))
 			for i, h := range r0.Sectors {
@@ -1189,17 +1267,34 @@ func buildAppendFreeFamily(f *family) error {
 					app = append(app, h)
 				}
 			}
-			sub, root := rhp4.BuildAppendProof(prevRoots, app)
-			switch m.Index {
-			case 0:
-				m.Err, m.Obj = nil, &rhp4.RPCAppendSectorsResponse{Accepted: acc, SubtreeRoots: sub, NewMerkleRoot: root}
-			case 1:
-				rev, _, err := rhp4.ReviseForAppendSectors(prev.Revision, r0.Prices, root, uint64(len(app)))
-				if err != nil {
-					return false
+			switch mode {
+			case "other-set":
+				app = append(app, base[4])
+			case "fewer":
+				if len(app) > 0 {
+					app = app[:len(app)-1]
 				}
-				m.Err, m.Obj = nil, &rhp4.RPCAppendSectorsThirdResponse{HostSignature: l.HostKey.SignHash(l.HostNode.CM.TipState().ContractSigHash(rev))}
 			}
+			sub, root := rhp4.BuildAppendProof(prevRoots, app)
+			switch mode {
+			case "accepted-extra":
+				acc = append(acc, true)
+			case "accepted-short":
+				if len(acc) > 0 {
+					acc = acc[:len(acc)-1]
+				}
+			case "accepted-none":
+				acc = nil
+			case "subtree-drop":
+				if len(sub) > 0 {
+					sub = sub[:len(sub)-1]
+				}
+			case "subtree-extra":
+				sub = append(sub, types.Hash256{0xee})
+			case "subtree-none":
+				sub = nil
+			}
+			m.Err, m.Obj = nil, &rhp4.RPCAppendSectorsResponse{Accepted: acc, SubtreeRoots: sub, NewMerkleRoot: root}
 			return true
 		}
 		altAppend := func(m *rhpmitm.Msg, mu mutation, _ *recorded) bool {
@@ -1290,13 +1385,37 @@ func buildAppendFreeFamily(f *family) error {
 		"1:oob-mixed":  {1, 9},
 		"1:empty":      {},
 		"2:nonadj":     {0, 2, 0},
+		"3:oob5":       {5},
+		"3:oob2":       {2},
+		"3:oob-mixed":  {0, 5},
+		"3:oob-huge":   {1 << 62},
+		"3:inrange":    {1},
+		"1:oob-huge":   {1<<64 - 1},
+	}
+	// every request (in range and out of range, on a 2-sector and a 5-sector
+	// contract) against every way the host's proof can be built for another
+	// index set or with a hash too few / too many
+	freeModes := []string{"sub-mod", "sub-last", "sub-first", "tree-drop", "tree-extra", "tree-none", "leaf-drop", "leaf-extra", "leaf-none", "all-none"}
+	var freeLenientModes []string
+	for _, v := range []string{"3:oob5", "3:oob2", "3:oob-mixed", "3:oob-huge", "3:inrange", "1:oob", "1:oob-eq", "1:oob-mixed", "1:oob-huge", "1:two", "1:all"} {
+		freeLenientModes = append(freeLenientModes, v)
+		for _, md := range freeModes {
+			if strings.HasPrefix(md, "sub-") && !strings.Contains(v, "oob") {
+				continue
+			}
+			freeLenientModes = append(freeLenientModes, v+"|"+md)
+		}
 	}
 	fr := &scenario{rpc: "free", nHost: 2, variants: []string{"1:first", "1:two", "1:dup", "1:all", "2:lastone"},
 		lenient: []string{"1:two", "1:nonadj", "1:nonadj4", "1:nonadj-asc", "1:alleq", "1:adjdup", "1:duplast", "1:dupfirst", "1:pairs", "1:unsorted", "1:oob", "1:oob-eq", "1:oob-mixed", "1:empty", "2:nonadj"}}
+	fr.lenient = append(fr.lenient, freeLenientModes...)
 	fr.prepare = func(variant string) (*exchange, error) {
 		c, b := c1, base
-		if variant[0] == '2' {
+		switch variant[0] {
+		case '2':
 			c, b = c2, base2
+		case '3': // the second contract cut down to two sectors
+			c, b = c2, base2[:2]
 		}
 		if err := normalize(l, c, b); err != nil {
 			return nil, err
@@ -1362,42 +1481,78 @@ func buildAppendFreeFamily(f *family) error {
 		}
 		lenientFree := func(m *rhpmitm.Msg, mu mutation, seen *recorded) bool {
 			rq := seen.get(rhpmitm.RenterToHost, 0)
-			if mu.Op != "lenient" || rq == nil {
+			if !strings.HasPrefix(mu.Op, "lenient") || rq == nil {
 				return false
 			}
-			// executes the list exactly as received - duplicates, order and all:
-			// each index is swapped with the current tail, then the tail is
-			// trimmed; indices outside the contract are skipped
+			mode := strings.TrimPrefix(strings.TrimPrefix(mu.Op, "lenient"), ":")
 			r0 := rq.Obj.(*rhp4.RPCFreeSectorsRequest)
-			var exec []uint64
-			for _, i := range r0.Indices {
-				if i < uint64(len(prevRoots)) {
-					exec = append(exec, i)
-				}
-			}
-			if len(exec) > len(prevRoots) {
-				exec = exec[:len(prevRoots)]
-			}
-			after := slices.Clone(prevRoots)
-			for i, n := range exec {
-				after[n] = after[len(after)-i-1]
-			}
-			after = after[:len(after)-len(exec)]
-			root := rhp4.MetaRoot(after)
-			switch m.Index {
-			case 0:
-				var th, lh []types.Hash256
-				if p := mon.Guard(func() { th, lh = rhp4.BuildFreeSectorsProof(prevRoots, exec) }); p != nil {
+			n := uint64(len(prevRoots))
+			if m.Index == 1 {
+				// countersigns the revision the renter derives from the answer it got
+				h0 := seen.get(rhpmitm.HostToRenter, 0)
+				if h0 == nil || h0.Err != nil {
 					return false
 				}
-				m.Err, m.Obj = nil, &rhp4.RPCFreeSectorsResponse{OldSubtreeHashes: th, OldLeafHashes: lh, NewMerkleRoot: root}
-			case 1:
-				rev, _, err := rhp4.ReviseForFreeSectors(prev.Revision, r0.Prices, root, len(r0.Indices))
-				if err != nil {
+				root := h0.Obj.(*rhp4.RPCFreeSectorsResponse).NewMerkleRoot
+				var rev types.V2FileContract
+				var err error
+				if p := mon.Guard(func() { rev, _, err = rhp4.ReviseForFreeSectors(prev.Revision, r0.Prices, root, len(r0.Indices)) }); p != nil || err != nil {
 					return false
 				}
 				m.Err, m.Obj = nil, &rhp4.RPCFreeSectorsThirdResponse{HostSignature: l.HostKey.SignHash(l.HostNode.CM.TipState().ContractSigHash(rev))}
+				return true
 			}
+			// the index list the host executes: by default the list exactly as
+			// received - duplicates, order and all - with indices outside the
+			// contract skipped; the substitution modes map an out-of-range index to
+			// one inside the contract instead (a proof for ANOTHER index set)
+			var exec []uint64
+			for _, i := range r0.Indices {
+				switch {
+				case i < n:
+					exec = append(exec, i)
+				case n == 0:
+				case mode == "sub-mod":
+					exec = append(exec, i%n)
+				case mode == "sub-last":
+					exec = append(exec, n-1)
+				case mode == "sub-first":
+					exec = append(exec, 0)
+				}
+			}
+			if uint64(len(exec)) > n {
+				exec = exec[:n]
+			}
+			after := slices.Clone(prevRoots)
+			for i, k := range exec {
+				after[k] = after[len(after)-i-1]
+			}
+			after = after[:len(after)-len(exec)]
+			var th, lh []types.Hash256
+			if p := mon.Guard(func() { th, lh = rhp4.BuildFreeSectorsProof(prevRoots, exec) }); p != nil {
+				return false
+			}
+			switch mode {
+			case "tree-drop":
+				if len(th) > 0 {
+					th = th[:len(th)-1]
+				}
+			case "tree-extra":
+				th = append(th, types.Hash256{0xee})
+			case "tree-none":
+				th = nil
+			case "leaf-drop":
+				if len(lh) > 0 {
+					lh = lh[:len(lh)-1]
+				}
+			case "leaf-extra":
+				lh = append(lh, types.Hash256{0xee})
+			case "leaf-none":
+				lh = nil
+			case "all-none":
+				th, lh = nil, nil
+			}
+			m.Err, m.Obj = nil, &rhp4.RPCFreeSectorsResponse{OldSubtreeHashes: th, OldLeafHashes: lh, NewMerkleRoot: rhp4.MetaRoot(after)}
 			return true
 		}
 		altFree := func(m *rhpmitm.Msg, mu mutation, _ *recorded) bool {
